@@ -7,6 +7,10 @@
  *    `bad-close` when any close() fails with EBADF (double close);
  *  - response kind `upgrade-hc`: the upgrade handler itself calls
  *    MHD_upgrade_action(CLOSE) before returning;
+ *  - response kinds `upgrade-hcw` (close action inside the handler, then the handler goes on: it blocks on a gate) and
+ *    `upgrade-w` (the handler blocks on the gate without closing: the script can issue the close action while the handler
+ *    is still running); internal-thread modes only.  `up-await <c>` waits until the handler of connection c is at its
+ *    gate, `up-release <c>` opens it;
  *  - `beh f=r<a>/r<b>`: if queueing response a is refused, response b is queued;
  *  - `resp … o=<flags>`: MHD_set_response_options in the middle of the header calls; response flags in
  *    the script use the canonical numbering strict=1 server=2 insanity=4 keepalive-hdr=8 head-only=16;
@@ -44,6 +48,7 @@
 #include <signal.h>
 #include <pthread.h>
 #include <stdarg.h>
+#include <semaphore.h>
 #include "common/lp.h"
 
 /* ---------------------------------------------------------------- clock */
@@ -93,6 +98,7 @@ struct conn {
   struct beh beh[MAXR];
   /* upgrade */
   struct MHD_UpgradeResponseHandle *urh; MHD_socket usock; int upgraded;
+  sem_t gate; volatile int at_gate;
   int ctx_serial;
 };
 static struct conn conns[MAXC];
@@ -177,19 +183,30 @@ static ssize_t content_cb (void *cls, uint64_t pos, char *buf, size_t max)
 static void content_free (void *cls) { struct cbctx *x = (struct cbctx *) cls; out ("free-cb rid=%d", x->rid); freecb_count[x->rid]++; free (x); }
 static void buf_free (void *cls) { struct cbctx *x = (struct cbctx *) cls; out ("free-cb rid=%d", x->rid); freecb_count[x->rid]++; free (x); }
 
+static int threaded (void);
 static void upgrade_cb (void *cls, struct MHD_Connection *connection, void *req_cls,
                         const char *extra_in, size_t extra_in_size, MHD_socket sock,
                         struct MHD_UpgradeResponseHandle *urh)
 {
   struct req *rq = (struct req *) req_cls;
+  const int cidx = rq->c;
   (void) connection;
   flockfile (stdout); printf ("upgrade c=%d extra=", rq->c); puthexs (extra_in, extra_in_size); putchar ('\n'); funlockfile (stdout);
   conns[rq->c].urh = urh; conns[rq->c].usock = sock; conns[rq->c].upgraded = 1;
   printf ("upgrade-sock c=%d same=%d\n", rq->c, (int) (sock == conns[rq->c].sfd));
-  if (NULL != cls)
+  if (0 != (1 & (intptr_t) cls))
   { /* close action from inside the upgrade handler */
-    out ("up-close c=%d -> %d", rq->c, (int) MHD_upgrade_action (urh, MHD_UPGRADE_ACTION_CLOSE));
-    conns[rq->c].upgraded = 0;
+    out ("up-close c=%d -> %d", cidx, (int) MHD_upgrade_action (urh, MHD_UPGRADE_ACTION_CLOSE));
+    conns[cidx].upgraded = 0;
+  }
+  if (0 != (2 & (intptr_t) cls) && threaded ())
+  { /* the handler goes on for a while (until the script opens the gate) */
+    const int c = cidx;
+    out ("up-waiting c=%d", c);
+    conns[c].at_gate = 1;
+    while (0 != sem_wait (&conns[c].gate) && EINTR == errno) ;
+    conns[c].at_gate = 2;
+    out ("up-resumed c=%d", c);
   }
 }
 
@@ -275,6 +292,8 @@ static struct MHD_Response *make_resp (int rid)
   }
   else if (!strcmp (r->kind, "upgrade")) m = MHD_create_response_for_upgrade (&upgrade_cb, NULL);
   else if (!strcmp (r->kind, "upgrade-hc")) m = MHD_create_response_for_upgrade (&upgrade_cb, (void *) 1);
+  else if (!strcmp (r->kind, "upgrade-w")) m = MHD_create_response_for_upgrade (&upgrade_cb, (void *) 2);
+  else if (!strcmp (r->kind, "upgrade-hcw")) m = MHD_create_response_for_upgrade (&upgrade_cb, (void *) 3);
   if (NULL == m) return NULL;
   if (r->flags) MHD_set_response_options (m, (enum MHD_ResponseFlags) rf_real (r->flags), MHD_RO_END);
   {
@@ -702,6 +721,7 @@ int main (void)
       memset (&sa, 0, sizeof(sa)); sa.sin_family = AF_INET; sa.sin_port = htons ((uint16_t) (1000 + a));
       sa.sin_addr.s_addr = htonl (0x0a000000u + (uint32_t) b);
       { int saved = conns[a].resume_in; (void) saved; }
+      sem_init (&conns[a].gate, 0, 0); conns[a].at_gate = 0;
       conns[a].used = 1; conns[a].cfd = sv[0]; conns[a].sfd = sv[1]; conns[a].addr = (int) b; conns[a].resume_in = -1;
       q = MHD_add_connection (d, sv[1], (struct sockaddr *) &sa, sizeof(sa));
       out ("arrive c=%d -> %d", (int) a, (int) q);
@@ -730,6 +750,10 @@ int main (void)
     { out ("set-timeout c=%d -> %d", (int) a, (int) MHD_set_connection_option (conns[a].mc, MHD_CONNECTION_OPTION_TIMEOUT, (unsigned int) b)); continue; }
     if (!strcmp (op, "resume") && l.n >= 2 && lp_u64 (l.w[1], &a) && a < MAXC && conns[a].mc)
     { conns[a].resume_in = -1; out ("resume c=%d", (int) a); MHD_resume_connection (conns[a].mc); continue; }
+    if (!strcmp (op, "up-await") && l.n >= 2 && lp_u64 (l.w[1], &a) && a < MAXC && conns[a].used)
+    { int k; for (k = 0; k < 5000 && 0 == conns[a].at_gate; k++) usleep (1000); out ("ok"); continue; }
+    if (!strcmp (op, "up-release") && l.n >= 2 && lp_u64 (l.w[1], &a) && a < MAXC && conns[a].used)
+    { sem_post (&conns[a].gate); out ("ok"); continue; }
     if (!strcmp (op, "up-close") && l.n >= 2 && lp_u64 (l.w[1], &a) && a < MAXC && conns[a].upgraded)
     { /* the daemon's threads may log the release before this thread logs the result: mark the start of the action */
       out ("up-closing c=%d", (int) a);
